@@ -217,6 +217,9 @@ void NiGeometryData::Create(NiVersion&,
 
 	bounds = BoundingSphere(vertices);
 
+	// Vertex colors can't be passed in, drop colors of a previous vertex set
+	SetVertexColors(false);
+
 	if (uvs) {
 		size_t uvCount = uvs->size();
 		if (uvCount == numVertices) {
